@@ -19,10 +19,10 @@ use quiver_core::program::Program;
 use quiver_core::types::{Type, is_compatible, types_overlap};
 
 fn opt_name(s: &Sexp, prefix: &str) -> Option<String> {
-    if s.atom() == "-" {
-        None
-    } else {
-        Some(format!("{}{}", prefix, s.atom()))
+    match s.atom() {
+        "-" => None,
+        "Ok" => Some("Ok".to_string()),
+        a => Some(format!("{}{}", prefix, a)),
     }
 }
 
